@@ -149,6 +149,34 @@ pub fn build(repo: &Path, root: &Path, with_big: bool) -> Tree {
             });
         }
     }
+    // tiny synthetic fixtures (a recursive input pair, an enum + interface): small enough for the
+    // instruction-level scheduler (Miri batch), and part of the ordinary workload too
+    let syn: [(&str, &str, &str); 2] = [
+        (
+            "syn_rec",
+            "schema { query: Q }\ntype Q { f(a: Rec, b: Other): Int }\ninput Rec { next: Rec, v: Int, o: Other }\ninput Other { x: Int, r: [Rec!] }\ninput Leaf { y: String }\ninput Pair { l: Leaf, m: Leaf }\n",
+            "query Op($a: Rec, $b: Other) { f(a: $a, b: $b) }\n",
+        ),
+        (
+            "syn_iface",
+            "schema { query: Q }\nenum Color { RED GREEN }\ninterface Named { name: String }\ntype A implements Named { name: String, a: Int }\ntype B implements Named { name: String, b: Color }\ntype Q { c: Color, n: Named }\n",
+            "query E { c n { __typename name ... on A { a } ... on B { b } } }\n",
+        ),
+    ];
+    // a chain of further inputs makes per-schema analyses (anything computed lazily from the whole
+    // schema) take long enough to be interleaved with
+    let chain: String = (0..28).map(|i| format!("input N{} {{ a: Int, n: N{}, l: [N{}] }}\n", i, i + 1, (i + 2) % 29)).collect::<String>() + "input N28 { a: Int }\n";
+    for (name, schema, query) in syn {
+        let schema_text = if name == "syn_rec" { format!("{}{}", schema, chain) } else { schema.to_string() };
+        let schema = schema_text.as_str();
+        let d = fx.join(name);
+        fs::create_dir_all(d.join("_sub")).unwrap();
+        fs::write(d.join("schema.graphql"), schema).unwrap();
+        fs::write(d.join("query.graphql"), query).unwrap();
+        dirs.push(name.to_string());
+        fixtures.push(Fixture { dir: name.to_string(), file: "schema.graphql".into(), is_schema: true, ops: vec![], big: false });
+        fixtures.push(Fixture { dir: name.to_string(), file: "query.graphql".into(), is_schema: false, ops: operation_names(query), big: false });
+    }
     // the same file under different paths
     for d in &dirs {
         fs::create_dir_all(root.join("sym").join(d)).unwrap();
